@@ -165,6 +165,24 @@ theorem C04_any_mapping_docview {α} (segs : List (Segment α)) (tbl : List (Nat
     shuffledDocs_getElem? segs tbl hlen hb n s d seg hn hs,
     fun k => shuffled_find segs tbl hnd hb' hpost k n s d seg hn hs⟩
 
+/-- THE DOC STORE OF A SHUFFLED MERGE. `write_storable_fields` does not look documents up by
+address there: it keeps one iterator per source over its ALIVE documents and takes the next one
+for every table entry. If the table lists every source's live documents exactly once and in
+doc-id order (which a k-way merge of the per-source iterators does), the iterators never run dry
+("unexpected missing document" cannot occur) and deliver exactly the documents the table asks
+for — the same documents `C04_any_mapping_docview` attaches norms, fast values and postings to. -/
+theorem C04_shuffled_store_iterators {α} (segs : List (Segment α)) (tbl : List (Nat × Nat))
+    (hlen : ∀ s ∈ segs, s.docs.length = s.alive.length)
+    (hsrc : ∀ s seg, segs[s]? = some seg → (tbl.filter fun a => a.1 == s).map (·.2) = liveIds seg.alive)
+    (hb : ∀ a ∈ tbl, ∃ seg, segs[a.1]? = some seg ∧ a.2 < seg.alive.length) :
+    storeIter (storeIters segs) tbl = some (shuffledDocs segs tbl) :=
+  storeIter_copyDocs segs tbl hlen hsrc hb
+
+example : storeIter (storeIters exSegsFwd) [(2, 0), (0, 0), (2, 1), (0, 2)] = some [4, 7, 5, 9] := by decide
+/-- a table that asks for a source's documents out of order gets the wrong documents -/
+example : storeIter (storeIters exSegsFwd) [(2, 1), (0, 0), (2, 0), (0, 2)] = some [4, 7, 5, 9]
+    ∧ shuffledDocs exSegsFwd [(2, 1), (0, 0), (2, 0), (0, 2)] = [5, 7, 4, 9] := by decide
+
 /-- a sorted-index style mapping over `exSegsFwd`: live docs in the order (2,1), (0,0), (2,0), (0,2) -/
 example := C04_any_mapping_docview exSegsFwd [(2, 1), (0, 0), (2, 0), (0, 2)] (by decide)
   (by decide) (by decide) (by decide) 2 2 0 _ rfl rfl
